@@ -48,6 +48,12 @@ structure St where
   /-- harness bookkeeping: the most recently used keysend hash is an approved invoice
       (`ksdup` repeats that hash; `ks` always uses a fresh one) -/
   lastPresent : Bool
+  /-- environment: the chain tracker's height relative to its height when the harness started, and the
+      number of blocks the harness added itself and can still remove (its own record of previous tips) -/
+  height : Nat := 0
+  added : Nat := 0
+  /-- harness bookkeeping mirrored from the stubs' `blockheight`: dbid ↦ height at creation -/
+  births : List (Nat × Nat) := []
 deriving Repr
 
 inductive Res | ok | err
@@ -101,7 +107,8 @@ def newChannel (c : Cfg) (s : St) (dbid : Nat) : St × Res :=
   else
     ({ s with mem := { s.mem with stubs := s.mem.stubs ++ [dbid] },
               disk := { s.disk with stubs := s.disk.stubs ++ [dbid] },
-              created := if s.created.contains dbid then s.created else s.created ++ [dbid] }, .ok)
+              created := if s.created.contains dbid then s.created else s.created ++ [dbid],
+              births := (dbid, s.height) :: s.births.filter (fun b => b.1 != dbid) }, .ok)
 
 /-- which channel `forget w` addresses: the ready channel for `w = 0` or when no stub was ever created -/
 def forgetTarget (c : Cfg) (s : St) (w : Nat) : Nat × Bool :=
@@ -126,7 +133,31 @@ def forgetChannel (c : Cfg) (s : St) (w : Nat) : St × Res :=
 /-- `Node::restore_node`: memory is rebuilt from the store alone -/
 def restart (s : St) : St × Res := ({ s with mem := s.disk }, .ok)
 
+/-- `CHANNEL_STUB_PRUNE_BLOCKS` (node.rs; networks other than regtest) -/
+def stubPruneBlocks : Nat := 6
+
+def birthOf (s : St) (d : Nat) : Nat := ((s.births.find? (fun b => b.1 == d)).map (·.2)).getD 0
+
+/-- `Node::get_heartbeat` → `prune_channels`: a stub older than `stubPruneBlocks` blocks is removed from
+    the channel map and its store entry deleted (the ready channel of the simulator is never done: its
+    funding is not on the simulator's chain) -/
+def heartbeat (s : St) : St × Res :=
+  let keep := fun d => !(stubPruneBlocks < s.height - birthOf s d)
+  ({ s with mem := { s.mem with stubs := s.mem.stubs.filter keep },
+            disk := { s.disk with stubs := s.disk.stubs.filter keep } }, .ok)
+
+/-- block requests as the simulator issues them: a good block connects, a bad one is refused; a removal
+    needs a block the simulator added itself -/
+def addBlocks (s : St) (good : Bool) (n : Nat) : St × Res :=
+  if good then ({ s with height := s.height + n, added := s.added + n }, .ok) else (s, .err)
+
+def removeBlock (s : St) (good : Bool) : St × Res :=
+  if good ∧ 0 < s.added then ({ s with height := s.height - 1, added := s.added - 1 }, .ok) else (s, .err)
+
 inductive Op
+  | hb
+  | blk (good : Bool) (n : Nat)
+  | unblk (good : Bool)
   | al (op : AlOp) (entries : List (Option Nat))
   | ks (amt : Nat) (dup : Bool)
   | newch (dbid : Nat)
@@ -135,6 +166,9 @@ inductive Op
 deriving Repr
 
 def step (c : Cfg) (s : St) : Op → Option (St × Res)
+  | .hb => some (heartbeat s)
+  | .blk g n => some (addBlocks s g n)
+  | .unblk g => some (removeBlock s g)
   | .al op es => some (allowlistOp s op es)
   | .ks amt dup => keysend c s amt dup
   | .newch d => some (newChannel c s d)
